@@ -1,1 +1,248 @@
-//! C03 — (harnesses not written yet)
+//! C03 — reader decodes every spec-conformant .shp, including foreign layouts.
+use crate::c13::assert_read_equals_stored;
+use crate::env::*;
+use crate::model::*;
+use crate::refcodec::*;
+use shapefile::record::{ConcreteReadableShape, ReadableShape, WritableShape};
+use shapefile::*;
+
+/// One record of a foreign file: structure, whether the optional M block is present, and
+/// whether the record is a null shape.
+pub struct Rec<'a> {
+    pub spec: Spec<'a>,
+    pub with_m: bool,
+    pub null: bool,
+}
+pub const fn rec<'a>(parts: &'a [usize], with_m: bool) -> Rec<'a> {
+    Rec { spec: spec(parts), with_m, null: false }
+}
+pub const fn rec_k<'a>(parts: &'a [usize], kinds: &'a [i32], with_m: bool) -> Rec<'a> {
+    Rec { spec: spec_k(parts, kinds, &[], &[]), with_m, null: false }
+}
+pub const NULL_REC: Rec = Rec { spec: spec(&[]), with_m: false, null: true };
+
+/// Independent encoder: header of type `code`, the records (arbitrary record numbers,
+/// arbitrary stored boxes, symbolic coordinates incl. NaN/inf), then `garbage` arbitrary
+/// bytes behind the declared length. Returns (declared length, models as stored).
+fn foreign_image<const N: usize>(img: &mut [u8; N], code: i32, recs: &[Rec], garbage: usize) -> (usize, [Model; MAXR]) {
+    let mut models = [Model::empty(code); MAXR];
+    let mut p = 100;
+    let mut i = 0;
+    while i < recs.len() {
+        let mut m = if recs[i].null {
+            Model::empty(T_NULL)
+        } else {
+            let mut m = Model::with_structure(code, recs[i].spec.parts);
+            let mut k = 0;
+            while k < recs[i].spec.kinds.len() {
+                m.pkind[k] = recs[i].spec.kinds[k];
+                k += 1;
+            }
+            sym_vertices(&mut m);
+            let mut c = 0;
+            while c < 8 {
+                m.bbox[c] = any_f64();
+                c += 1;
+            }
+            m
+        };
+        m.with_m = recs[i].with_m && may_have_m(code) && !recs[i].null;
+        let recno: i32 = kani::any();
+        p = enc_record(&m, recno, img, p);
+        models[i] = m;
+        i += 1;
+    }
+    let mut hb = [0.0f64; 8];
+    let mut c = 0;
+    while c < 8 {
+        hb[c] = any_f64();
+        c += 1;
+    }
+    enc_header(img, p, code, &hb);
+    let mut g = 0;
+    while g < garbage {
+        img[p + g] = kani::any();
+        g += 1;
+    }
+    (p, models)
+}
+
+/// What the reader must hand back for a stored record: absent measures become NO_DATA.
+fn expected(stored: &Model) -> Model {
+    let mut e = *stored;
+    if !stored.with_m {
+        let mut i = 0;
+        while i < e.nv {
+            e.v[i][3] = shapefile::NO_DATA;
+            i += 1;
+        }
+        // no claim for the M range of a record without M block
+        e.bbox[6] = 0.0;
+        e.bbox[7] = 0.0;
+    }
+    e
+}
+fn check<S: TShape>(stored: &Model, got: &S) {
+    let e = expected(stored);
+    let mut g = got.extract();
+    if !stored.with_m {
+        g.bbox[6] = 0.0;
+        g.bbox[7] = 0.0;
+    }
+    assert_read_equals_stored::<S>(&e, &g);
+}
+
+/// Typed iteration over a foreign file of type S.
+pub fn foreign_typed<S: TShape, const N: usize>(recs: &[Rec], garbage: usize) {
+    let mut img = [0u8; N];
+    let (len, models) = foreign_image::<N>(&mut img, S::CODE, recs, garbage);
+    let mut rd = ShapeReader::new(MemSource::with_len(&img, len + garbage));
+    match &mut rd {
+        Ok(rd) => {
+            let mut it = rd.iter_shapes_as::<S>();
+            let mut i = 0;
+            while i < recs.len() {
+                let item = it.next();
+                match &item {
+                    Some(Ok(s)) => check::<S>(&models[i], s),
+                    _ => assert!(false, "a conformant record was not decoded"),
+                }
+                std::mem::forget(item);
+                i += 1;
+            }
+            let item = it.next();
+            assert!(item.is_none(), "bytes behind the declared length were not ignored");
+            std::mem::forget(item);
+        }
+        Err(_) => assert!(false, "a conformant file could not be opened"),
+    }
+    std::mem::forget(rd);
+    kani::cover!(true, "all records decoded");
+}
+
+macro_rules! ft {
+    ($name:ident, $T:ty, $N:expr, $recs:expr, $g:expr) => {
+        #[kani::proof]
+        #[kani::unwind(34)]
+        fn $name() {
+            foreign_typed::<$T, $N>(&$recs, $g);
+        }
+    };
+}
+// H: tier=quick; unwind=34; sym=coords, stored boxes, record numbers (any i32); file=PointZ records of 32 bytes (with M) and 24 bytes (without M), 8 garbage bytes behind the declared length; asserts=both decoded, absent measure == NO_DATA, present measure bit-identical, garbage ignored
+ft!(c03_q_pointz_with_and_without_m, PointZ, 224, [rec(&[], true), rec(&[], false)], 8);
+// H: tier=quick; unwind=34; sym=coords, boxes, record numbers; file=PolylineZ [2] without M block then PolylineZ [1,2] with M block (a part with a single vertex); asserts=structure, XYZ bits, stored box returned as stored, measures NO_DATA when absent / normalised when present
+ft!(c03_q_polylinez_optional_m, PolylineZ, 512, [rec(&[2], false), rec(&[1, 2], true)], 0);
+// H: tier=quick; unwind=34; sym=coords, boxes, record numbers; file=PolylineM [2] without M block; asserts=decoded, all measures NO_DATA
+ft!(c03_q_polylinem_without_m, PolylineM, 256, [rec(&[2], false)], 0);
+// H: tier=quick; unwind=34; sym=coords, boxes, record numbers; file=MultipointM of 2 points without M then MultipointM of 1 point with M; asserts=as above
+ft!(c03_q_multipointm_optional_m, MultipointM, 320, [rec(&[2], false), rec(&[1], true)], 0);
+// H: tier=quick; unwind=34; sym=coords, boxes; file=MultipointZ 2 points without M; asserts=Z bits, measures NO_DATA
+ft!(c03_q_multipointz_without_m, MultipointZ, 256, [rec(&[2], false)], 0);
+// H: tier=quick; unwind=34; sym=boxes, record numbers; file=Polyline with zero parts and zero points, then Polyline with parts of 0 and 2 vertices; asserts=decoded with exactly that structure
+ft!(c03_q_polyline_empty_and_empty_part, Polyline, 320, [rec(&[], true), rec(&[0, 2], true)], 0);
+// H: tier=quick; unwind=34; sym=coords (all doubles), boxes; file=Polygon with a first ring in arbitrary (possibly counter-clockwise) order, 4 vertices, 8 garbage bytes; asserts=vertices and stored box returned as stored whatever the orientation
+ft!(c03_q_polygon_any_orientation, Polygon, 256, [rec(&[4], true)], 8);
+// H: tier=quick; unwind=34; sym=coords, boxes; file=Multipatch [fan 3, inner ring 3] without M block; asserts=patch kinds, XYZ bits, measures NO_DATA
+ft!(c03_q_multipatch_without_m, Multipatch, 400, [rec_k(&[3, 3], &[1, 3], false)], 0);
+// H: tier=thorough; unwind=34; sym=coords, boxes; file=Multipatch [strip 3] with M block then [outer ring 4] without; asserts=as above
+ft!(c03_t_multipatch_optional_m, Multipatch, 640, [rec_k(&[3], &[0], true), rec_k(&[4], &[2], false)], 0);
+// H: tier=thorough; unwind=34; sym=coords, boxes; file=PolygonZ [4] without M then PolygonM-less...: PolygonZ [3] with M; asserts=as above
+ft!(c03_t_polygonz_optional_m, PolygonZ, 640, [rec(&[4], false), rec(&[3], true)], 0);
+// H: tier=thorough; unwind=34; sym=coords, boxes; file=PolygonM [4] without M block; asserts=as above
+ft!(c03_t_polygonm_without_m, PolygonM, 320, [rec(&[4], false)], 0);
+// H: tier=thorough; unwind=34; sym=coords, boxes; file=Multipoint with zero points then 2 points; asserts=structure and XY
+ft!(c03_t_multipoint_zero_then_two, Multipoint, 320, [rec(&[0], true), rec(&[2], true)], 0);
+// H: tier=thorough; unwind=34; sym=coords; file=3 Point records with arbitrary record numbers, 8 garbage bytes; asserts=3 shapes in order, garbage ignored
+ft!(c03_t_point_3_recnos, Point, 224, [rec(&[], true), rec(&[], true), rec(&[], true)], 8);
+// H: tier=thorough; unwind=34; sym=coords; file=PointM 2 records; asserts=M bit-identical (no normalisation for single points)
+ft!(c03_t_pointm_2, PointM, 224, [rec(&[], true), rec(&[], true)], 0);
+
+/// Generic iteration over a point-type file that also holds null-shape records.
+fn with_nulls<S: TShape, const N: usize>(recs: &[Rec], header_code: i32) {
+    let mut img = [0u8; N];
+    let (len, models) = foreign_image::<N>(&mut img, S::CODE, recs, 0);
+    // the header may carry the shapes' type or the null type (type-0 file of null records)
+    put_i32_le(&mut img, 32, header_code);
+    let mut rd = ShapeReader::new(MemSource::with_len(&img, len));
+    match &mut rd {
+        Ok(rd) => {
+            let mut it = rd.iter_shapes();
+            let mut i = 0;
+            while i < recs.len() {
+                let item = it.next();
+                match &item {
+                    Some(Ok(sh)) => {
+                        if recs[i].null {
+                            assert!(matches!(sh, Shape::NullShape), "a null record was decoded as something else");
+                        } else {
+                            match S::of_shape(sh) {
+                                Some(s) => check::<S>(&models[i], s),
+                                None => assert!(false, "record decoded as another variant"),
+                            }
+                        }
+                    }
+                    _ => assert!(false, "a conformant record was not decoded"),
+                }
+                std::mem::forget(item);
+                i += 1;
+            }
+            let item = it.next();
+            assert!(item.is_none());
+            std::mem::forget(item);
+        }
+        Err(_) => assert!(false, "a conformant file could not be opened"),
+    }
+    std::mem::forget(rd);
+    kani::cover!(true, "all records decoded");
+}
+// H: tier=quick; unwind=34; sym=coords, record numbers; file=header type PointZ, records [PointZ without M, null shape, PointZ with M]; route=generic iteration; asserts=PointZ, NullShape, PointZ in that order with the stored values
+#[kani::proof]
+#[kani::unwind(34)]
+fn c03_q_null_records_between_points() {
+    with_nulls::<PointZ, 256>(&[rec(&[], false), NULL_REC, rec(&[], true)], T_POINTZ);
+}
+// H: tier=quick; unwind=34; sym=record numbers; file=header type 0 (null shape), two null records; route=generic iteration; asserts=two NullShape values then end
+#[kani::proof]
+#[kani::unwind(34)]
+fn c03_q_type0_file_of_nulls() {
+    with_nulls::<Point, 160>(&[NULL_REC, NULL_REC], T_NULL);
+}
+
+/// Generic decode of one multi-vertex record at `Shape::read_from` (by reference; see
+/// DESIGN.md section 8 for why generic *iteration* of such records is not modelled).
+fn generic_record<S: TShape, const N: usize>(r: &Rec) {
+    let mut img = [0u8; N];
+    let (len, models) = foreign_image::<N>(&mut img, S::CODE, std::slice::from_ref(r), 0);
+    let clen = len - 108;
+    let mut src = MemSource::with_len(&img, len);
+    src.pos = 108;
+    let res = Shape::read_from(&mut src, clen as i32);
+    match &res {
+        Ok(sh) => match S::of_shape(sh) {
+            Some(s) => check::<S>(&models[0], s),
+            None => assert!(false, "record decoded as another variant"),
+        },
+        Err(_) => assert!(false, "a conformant record was not decoded"),
+    }
+    std::mem::forget(res);
+    kani::cover!(true, "record decoded generically");
+}
+// H: tier=quick; unwind=34; sym=coords, box; record=PolylineZ [2,1] without M; call=Shape::read_from; asserts=Shape::PolylineZ with the stored structure, measures NO_DATA
+#[kani::proof]
+#[kani::unwind(34)]
+fn c03_q_generic_polylinez_without_m() {
+    generic_record::<PolylineZ, 320>(&rec(&[2, 1], false));
+}
+// H: tier=thorough; unwind=34; sym=coords, box; record=MultipointZ 2 points without M; call=Shape::read_from; asserts=as above
+#[kani::proof]
+#[kani::unwind(34)]
+fn c03_t_generic_multipointz_without_m() {
+    generic_record::<MultipointZ, 256>(&rec(&[2], false));
+}
+// H: tier=thorough; unwind=34; sym=coords, box; record=Multipatch [ring 3] without M; call=Shape::read_from; asserts=as above
+#[kani::proof]
+#[kani::unwind(34)]
+fn c03_t_generic_multipatch_without_m() {
+    generic_record::<Multipatch, 320>(&rec_k(&[3], &[5], false));
+}
